@@ -1,6 +1,7 @@
 package main
 
 import (
+	"strings"
 	"fmt"
 	"math/big"
 
@@ -64,6 +65,30 @@ var badTypes = []string{"", "int", "uint", "int0", "int7", "int257", "uint264", 
 
 func genC13(g *G) {
 	pow := func(k int) *big.Int { return new(big.Int).Lsh(big.NewInt(1), uint(k)) }
+	// The encoders share package-level state (the type regular expression) with the report codecs that call them.
+	// What those codecs do first must not change what the encoders do afterwards: the run starts with the codecs'
+	// Verify on every kind of channel options the C12 generator knows (valid ones, unsupported ABI types, two-element
+	// timestamped entries, malformed text), and with a few directed ones; all integer cases follow in the same process.
+	{
+		sub := &G{R: g.R, Tier: g.Tier, Prop: g.Prop}
+		n := 0
+		sub.emit = func(c Case) {
+			if strings.HasPrefix(jStr(c.Op["op"]), "evm.verify.") && n < 400 {
+				n++
+				c.ModelSkip = true
+				c.Tags = append(c.Tags, "codec-verify-before-encodes")
+				g.emit(c)
+			}
+		}
+		genC12(sub)
+		feed := "0x" + strings.Repeat("cd", 32)
+		for _, abi := range []string{`[{"type":"uint190"}]`, `[{"type":"bool"}]`, `[{"type":"int7"}]`, `[[{"type":"uint64"},{"type":"int192"}]]`, `[[{"type":"int64"},{"type":"int192"}]]`,
+			`[[{"type":"bytes0"},{"type":"uint8"}]]`, `[{"type":"int256"},{"type":"uint999"}]`, `[{"type":"uint0"}]`, `[{"type":"int0"}]`} {
+			g.EmitImpl(J{"op": "evm.verify.unpacked", "optsText": fmt.Sprintf(`{"baseUSDFee":"1","expirationWindow":60,"feedID":%q,"abi":%s}`, feed, abi), "nStreams": 3, "implOnly": true}, "codec-verify-before-encodes")
+			g.EmitImpl(J{"op": "evm.verify.streamlined", "optsText": fmt.Sprintf(`{"feedID":%q,"abi":%s}`, feed, abi), "nStreams": 1, "implOnly": true}, "codec-verify-before-encodes")
+			g.EmitImpl(J{"op": "evm.verify.streamlined", "optsText": fmt.Sprintf(`{"abi":%s}`, abi), "nStreams": 1, "implOnly": true}, "codec-verify-before-encodes")
+		}
+	}
 	// histories: the same encoders called in arbitrary (not width-sorted) order, results retained
 	defer func() {
 		types := []string{}
@@ -186,6 +211,9 @@ func genC13(g *G) {
 // monC13: independent oracle: succeeds iff representable; bytes are N/8 big-endian two's complement
 // (packed) or its 32-byte sign extension (padded).
 func monC13(op J, res any) (viol []Violation, nontrivial bool) {
+	if !strings.HasPrefix(jStr(op["op"]), "evm.int.") {
+		return nil, false // the codecs' Verify calls at the start of the run are not judged here
+	}
 	if jStr(op["op"]) == "evm.int.batch" {
 		r := jObj(res)
 		if r["panic"] != nil {
